@@ -272,9 +272,10 @@ def decLoop (cfg : Cfg) (req : Bool) (uid : Nat) (d : Bytes) : Nat → Dec → L
       else some (drec, rest, c)
     match flushed with
     | none =>
-      -- callback failed: htp_gzip_decompressor_end, return its code (re-run to get the state it left)
+      -- callback failed: htp_gzip_decompressor_end (which also forgets the output buffer - finding S39, repaired), return its code
+      -- (re-run to get the state it left)
       let (rest, (c, rc)) := decSend cfg req uid false fuel (drec.kind != 0) rest (some drec.buf) c
-      ({ drec with kind := 0 } :: rest, (c, rc))
+      ({ drec with kind := 0, buf := [] } :: rest, (c, rc))
     | some (drec, rest, c) => decStep cfg req uid d fuel drec rest inp c
 
 /-- one pass of that loop after the buffer check: the inflate() call and what follows from its result -/
@@ -292,7 +293,7 @@ def decStep (cfg : Cfg) (req : Bool) (uid : Nat) (d : Bytes) : Nat → Dec → L
       let rc := if drec.buf.length > 0 && z.rc == Z_DATA_ERROR then Z_STREAM_END else z.rc
       if rc == Z_STREAM_END then
         let (rest, (c, crc)) := decSend cfg req uid false fuel (drec.kind != 0) rest (some drec.buf) c
-        if crc != .ok then ({ drec with kind := 0 } :: rest, (c, crc))
+        if crc != .ok then ({ drec with kind := 0, buf := [] } :: rest, (c, crc))
         else ({ drec with buf := [] } :: rest, (c, .ok))       -- the rest of the input is dropped ("TODO Handle trailer")
       else if rc != Z_OK then
         -- inflateEnd; htp_gzip_decompressor_restart
@@ -329,7 +330,7 @@ def decompress (cfg : Cfg) (req : Bool) (uid : Nat) : Nat → List Dec → Optio
       -- end of the stream: what is in the buffer goes out (NULL when there is nothing)
       let dout := if drec.buf.length > 0 then some drec.buf else none
       let (rest, (c, rc)) := decSend cfg req uid true fuel (drec.kind != 0) rest dout c
-      if rc != .ok && !(drec.kind != 0 && !rest.isEmpty) then ({ drec with kind := 0 } :: rest, (c, rc))
+      if rc != .ok && !(drec.kind != 0 && !rest.isEmpty) then ({ drec with kind := 0, buf := [] } :: rest, (c, rc))
       else (drec :: rest, (c, rc))
     | some d => decLoop cfg req uid d fuel drec rest d c
 end
